@@ -32,4 +32,5 @@ Extraction "jv.ml"
   (* Spec.v / SpecX.v: the executable specification (oracle) *)
   cal_of date_of at_ymd_spec at_ordinal_date_spec year_count year_kind_of ykind_gen month_shape_spec shape_of month_count
   sh_len sh_in sh_nth sh_ord sh_first sh_last sh_natural sh_gap is_old lbl jlabel glabel ordinal_of day_ordinal_of
-  natural_len incalb month_days msum jdn_of_ordinal.
+  natural_len incalb month_days msum jdn_of_ordinal
+  month_names_spec weekday_names_spec enum_q_spec.
